@@ -1,4 +1,5 @@
 import InfluxQL.Lemmas.Cond
+import InfluxQL.Lemmas.Digits
 import InfluxQL.Model.SetTimeRangeSpec
 /-
 Helper lemmas for C18: what `rewriteNoTime` does on the class, `creduce` on the rewritten
@@ -290,6 +291,52 @@ theorem reduceBin_and_true (tbl : List (Char × Char)) (c : RCtx) (x : Expr) (h 
 
 
 
+/-! ### the parentheses around a top-level OR -/
+
+theorem print_paren (e : Expr) : (Expr.paren e).print = ['('] ++ e.print ++ [')'] := rfl
+
+/-- The text `rewriteWithoutTimeDimensions` returns is the print of the grouped tree. -/
+theorem rewrittenText_eq_print (tbl : List (Char × Char)) (c : Expr) :
+    rewrittenText tbl c = (groupForAnd (rewriteNoTime tbl c)).print := by
+  by_cases h : topIsOr (rewriteNoTime tbl c) = true
+  · show (if topIsOr (rewriteNoTime tbl c) = true then _ else _) =
+      Expr.print (if topIsOr (rewriteNoTime tbl c) = true then _ else _)
+    rw [if_pos h, if_pos h, print_paren]
+  · show (if topIsOr (rewriteNoTime tbl c) = true then _ else _) =
+      Expr.print (if topIsOr (rewriteNoTime tbl c) = true then _ else _)
+    rw [if_neg h, if_neg h]
+
+/-- The text handed to the parser starts with the print of the grouped tree. -/
+theorem setTimeRangeText_eq (tbl : List (Char × Char)) (c : Expr) (w : Window) :
+    setTimeRangeText tbl (some c) w =
+      (groupForAnd (rewriteNoTime tbl c)).print ++ [' ', 'A', 'N', 'D', ' '] ++ boundsText w := by
+  simp only [setTimeRangeText, rewrittenText_eq_print]
+
+/-- The grouped tree never has an `OR` at the top: whatever stands left of the appended `AND`
+binds at least as tightly as `AND`. -/
+theorem topIsOr_groupForAnd (e : Expr) : topIsOr (groupForAnd e) = false := by
+  by_cases h : topIsOr e = true
+  · rw [groupForAnd, if_pos h]; rfl
+  · rw [groupForAnd, if_neg h]; simpa using h
+
+theorem groupForAnd_of_not_or (e : Expr) (h : topIsOr e = false) : groupForAnd e = e := by
+  simp [groupForAnd, h]
+
+theorem topIsOr_and (l r : Expr) : topIsOr (.binary .AND l r) = false := by
+  simp [topIsOr]
+
+/-- Grouping keeps a time-free residual a time-free residual of the same value, one node larger
+at most. -/
+theorem groupForAnd_resTF (tbl : List (Char × Char)) (e : Expr) (h : isResTF tbl e = true) :
+    isResTF tbl (groupForAnd e) = true ∧ (∀ L, evalB L (groupForAnd e) = evalB L e) ∧
+    (groupForAnd e).size = e.size + (if topIsOr e then 1 else 0) := by
+  by_cases ho : topIsOr e = true
+  · rw [groupForAnd, if_pos ho, if_pos ho]
+    refine ⟨by simpa [isResTF] using h, fun L => by simp [evalB], ?_⟩
+    rw [size_paren]; omega
+  · rw [groupForAnd, if_neg ho, if_neg ho]
+    exact ⟨h, fun _ => rfl, by omega⟩
+
 /-! ### the condition after one call -/
 
 /-- The condition after one call, from the reduced non-time part `N`. -/
@@ -306,7 +353,7 @@ theorem reduce_ltBound (c : RCtx) (s : Int) : creduce c (ltBound s) = ltBound s 
   reduce_stable c .LT timeVar _ (by decide) (by decide) (stable_bound _)
 
 theorem stepSpec_eq (fa : FloatArith) (tbl : List (Char × Char)) (c : Expr) (w : Window) :
-    stepSpec fa tbl c w = build fa (creduce (nilRCtx fa) (rewriteNoTime tbl c)) w := by
+    stepSpec fa tbl c w = build fa (creduce (nilRCtx fa) (groupForAnd (rewriteNoTime tbl c))) w := by
   unfold stepSpec expectedTree build
   rw [creduce, creduce, reduce_geBound, reduce_ltBound]
 
@@ -364,7 +411,7 @@ theorem build_spec (ctx : CCtx) (fa : FloatArith) (N : Expr) (w : Window)
     (∀ L, nonTimeHolds ctx.lowerTbl L (build fa N w) = evalB L N) ∧
     (WindowOK ctx w → ∀ L t, holds ctx L t (build fa N w) = (w.contains t && evalB L N)) ∧
     (build fa N w).size ≤ N.size + 8 ∧
-    creduce (nilRCtx fa) (rewriteNoTime ctx.lowerTbl (build fa N w)) = creduce (nilRCtx fa) N := by
+    creduce (nilRCtx fa) (groupForAnd (rewriteNoTime ctx.lowerTbl (build fa N w))) = creduce (nilRCtx fa) N := by
   have hge_tol := strClass_bound ctx.lowerTbl .GTE (.string (formatRFC3339Nano w.start)) (by decide) (by decide) hT
   have hlt_tol := strClass_bound ctx.lowerTbl .LT (.string (formatRFC3339Nano w.stop)) (by decide) (by decide) hT
   have hge_nt := fun L => nonTimeHolds_bound ctx.lowerTbl L .GTE (.string (formatRFC3339Nano w.start)) (by decide) (by decide) hT
@@ -389,14 +436,14 @@ theorem build_spec (ctx : CCtx) (fa : FloatArith) (N : Expr) (w : Window)
           = .binary .AND (.boolean true) (.boolean true) := by
         rw [rewriteNoTime, hge_rw, hlt_rw]
         simp [isTimeRef]
-      rw [h1]
+      rw [h1, groupForAnd_of_not_or _ (topIsOr_and _ _)]
       simp [creduce, reduceBin]
   · rw [hb]
     refine ⟨by simp [strClass], ?_, ?_, ?_, ?_⟩
     · intro L; simp [nonTimeHolds, evalB]
     · intro _ L t; simp [holds, evalB]
     · rw [size_boolean]; omega
-    · simp [rewriteNoTime]
+    · simp [rewriteNoTime, groupForAnd, topIsOr]
   · rw [hb]
     have hres := isResTF_isRes ctx.lowerTbl N hN
     have htf := isResTF_timeFree ctx.lowerTbl N hN
@@ -425,7 +472,7 @@ theorem build_spec (ctx : CCtx) (fa : FloatArith) (N : Expr) (w : Window)
           simp only [hNp, hbt, Bool.false_eq_true, or_self, if_false]
         rw [rewriteNoTime, h2, hlt_rw]
         simp [isTimeRef]
-      rw [h1, creduce, creduce]
+      rw [h1, groupForAnd_of_not_or _ (topIsOr_and _ _), creduce, creduce]
       have hr := reduce_resTF ctx.lowerTbl (nilRCtx fa) N hN
       have hb1 : creduce (nilRCtx fa) (.boolean true) = .boolean true := by simp [creduce]
       rw [hb1, reduceBin_and_true ctx.lowerTbl _ _ hr.1, reduceBin_and_true ctx.lowerTbl _ _ hr.1]
@@ -466,20 +513,23 @@ mutual
       rw [rewriteArgs, sizeArgs_cons, sizeArgs_cons]; omega
 end
 
-/-- The reduced non-time part of a condition. -/
+/-- The reduced non-time part of a condition (grouped as `SetTimeRange` prints it). -/
 def ntPart (fa : FloatArith) (tbl : List (Char × Char)) (c : Expr) : Expr :=
-  creduce (nilRCtx fa) (rewriteNoTime tbl c)
+  creduce (nilRCtx fa) (groupForAnd (rewriteNoTime tbl c))
 
 theorem ntPart_spec (tbl : List (Char × Char)) (fa : FloatArith) (c : Expr) (h : strClass tbl c = true) :
     isResTF tbl (ntPart fa tbl c) = true ∧ (∀ L, evalB L (ntPart fa tbl c) = nonTimeHolds tbl L c) ∧
-    (ntPart fa tbl c).size ≤ c.size := by
+    (ntPart fa tbl c).size ≤ c.size + parenCost tbl c := by
   have hr := fun L => rewrite_strClass tbl L c h
   have hP := (hr (fun _ => false)).1
-  have h1 := reduce_resTF tbl (nilRCtx fa) _ hP
+  obtain ⟨hG, hGe, hGs⟩ := groupForAnd_resTF tbl _ hP
+  have h1 := reduce_resTF tbl (nilRCtx fa) _ hG
   refine ⟨h1.1, ?_, ?_⟩
   · intro L
-    rw [ntPart, (reduce_res (nilRCtx fa) L _ (isResTF_isRes tbl _ hP)).2, (hr L).2]
-  · exact Nat.le_trans h1.2 (rewriteNoTime_size tbl c)
+    rw [ntPart, (reduce_res (nilRCtx fa) L _ (isResTF_isRes tbl _ hG)).2, hGe L, (hr L).2]
+  · have := rewriteNoTime_size tbl c
+    unfold ntPart parenCost
+    omega
 
 /-- Under the print → parse hypothesis, `SetTimeRange` computes `stepSpec`. -/
 theorem setTimeRange_of_RT (tbl : List (Char × Char)) (fa : FloatArith) (c : Expr) (w : Window)
@@ -607,5 +657,192 @@ theorem conditionExpr_build (ctx : CCtx) (fa : FloatArith) (N : Expr) (w : Windo
     · intro L
       rw [strip_preserves, evalOpt, hr3 L]
 
+/-! ### the text handed to the parser is the print of `expectedTree`
+
+A printed instant consists of digits and `- T : . Z`, none of which `QuoteString` escapes; `time`
+needs no quotes. So the `fmt.Sprintf` text of `SetTimeRange` is exactly `String()` of the tree the
+hypothesis `RT` expects back. -/
+
+/-- Characters of a printed instant: digits and `- T : . Z`. -/
+def tsChar (c : Char) : Bool :=
+  isDigit c || c == '-' || c == 'T' || c == ':' || c == '.' || c == 'Z'
+
+theorem tsChar_of_digit (c : Char) (h : isDigit c = true) : tsChar c = true := by
+  simp [tsChar, h]
+
+theorem pad_ts (w n : Nat) : ∀ c ∈ pad w n, tsChar c = true := by
+  intro c hc
+  simp only [pad, List.mem_append, List.mem_replicate] at hc
+  rcases hc with ⟨_, rfl⟩ | hc
+  · decide
+  · exact tsChar_of_digit c (natDigits_all_digits n c hc)
+
+theorem dropTrailingZeros_mem (l : List Char) : ∀ c ∈ dropTrailingZeros l, c ∈ l := by
+  intro c hc
+  simp only [dropTrailingZeros, List.mem_reverse] at hc
+  exact List.mem_reverse.mp ((List.dropWhile_sublist _).subset hc)
+
+def AllTs (l : List Char) : Prop := ∀ c ∈ l, tsChar c = true
+
+theorem allTs_append {a b : List Char} (ha : AllTs a) (hb : AllTs b) : AllTs (a ++ b) := by
+  intro c hc
+  rcases List.mem_append.mp hc with h | h
+  · exact ha c h
+  · exact hb c h
+
+theorem allTs_single (c : Char) (h : tsChar c = true) : AllTs [c] := by
+  intro x hx
+  rw [List.mem_singleton.mp hx]; exact h
+
+theorem allTs_nil : AllTs [] := fun _ h => by cases h
+
+theorem format_ts (ns : Int) : AllTs (formatRFC3339Nano ns) := by
+  unfold formatRFC3339Nano
+  simp only []
+  generalize civilFromDays _ = p
+  obtain ⟨y, m, d⟩ := p
+  simp only []
+  have hfrac : AllTs (if dropTrailingZeros (pad 9 (ns % 1000000000).toNat) = [] then []
+      else '.' :: dropTrailingZeros (pad 9 (ns % 1000000000).toNat)) := by
+    split
+    · exact allTs_nil
+    · exact allTs_append (a := ['.']) (allTs_single _ (by decide))
+        (fun c hc => pad_ts _ _ c (dropTrailingZeros_mem _ c hc))
+  repeat' apply allTs_append
+  all_goals first
+    | exact pad_ts _ _
+    | exact allTs_single _ (by decide)
+    | exact hfrac
+    | exact fun c hc => tsChar_of_digit c (natDigits_all_digits _ c hc)
+    | exact fun c hc => by rw [(List.mem_replicate.mp hc).2]; decide
+
+theorem replaceChar_ts (c : Char) (h : tsChar c = true) : replaceChar qsReplacer c = [c] := by
+  have h1 : c ≠ Char.ofNat 0xa := fun e => by subst e; revert h; decide
+  have h2 : c ≠ '\\' := fun e => by subst e; revert h; decide
+  have h3 : c ≠ '\'' := fun e => by subst e; revert h; decide
+  simp [qsReplacer, replaceChar, h1.symm, h2.symm, h3.symm]
+
+theorem replaceAll_ts : ∀ (s : List Char), (∀ c ∈ s, tsChar c = true) → replaceAll qsReplacer s = s
+  | [], _ => rfl
+  | c :: s, h => by
+    have ih := replaceAll_ts s (fun x hx => h x (List.mem_cons_of_mem _ hx))
+    have e : replaceAll qsReplacer (c :: s) = replaceChar qsReplacer c ++ replaceAll qsReplacer s :=
+      List.flatMap_cons
+    rw [e, ih, replaceChar_ts c (h c List.mem_cons_self)]
+    exact List.singleton_append
+
+theorem quoteString_format (ns : Int) :
+    quoteString (formatRFC3339Nano ns) = ['\''] ++ formatRFC3339Nano ns ++ ['\''] := by
+  unfold quoteString
+  rw [replaceAll_ts _ (format_ts ns)]
+  generalize formatRFC3339Nano ns = f
+  rfl
+
+theorem print_binary (op : Token) (l r : Expr) :
+    (Expr.binary op l r).print = l.print ++ [' '] ++ op.str ++ [' '] ++ r.print := rfl
+theorem print_string (v : Str) : (Expr.string v).print = quoteString v := rfl
+theorem print_timeVar : timeVar.print = ['t', 'i', 'm', 'e'] := by decide
+
+/-- The text `SetTimeRange` hands to the parser is the print of `expectedTree`. -/
+theorem setTimeRangeText_is_print (tbl : List (Char × Char)) (c : Expr) (w : Window) :
+    setTimeRangeText tbl (some c) w = (expectedTree tbl c w).print := by
+  rw [setTimeRangeText_eq]
+  unfold expectedTree geBound ltBound boundsText
+  simp only [print_binary, print_string, print_timeVar, quoteString_format]
+  have e1 : Token.AND.str = ['A', 'N', 'D'] := by decide
+  have e2 : Token.GTE.str = ['>', '='] := by decide
+  have e3 : Token.LT.str = ['<'] := by decide
+  rw [e1, e2, e3]
+  simp [List.append_assoc]
+
+/-! ### deciding the print → parse hypothesis for a concrete condition
+
+`Expr` is a nested inductive without `DecidableEq`; `Expr.same` is a structural Boolean comparison
+that implies equality, so that `RT` for a concrete condition and window can be checked by running
+the parser model in the kernel (`rtCheck`, `decide +kernel`). -/
+
+mutual
+  def Expr.same : Expr → Expr → Bool
+    | .binary o1 l1 r1, b =>
+      match b with
+      | .binary o2 l2 r2 => decide (o1 = o2) && Expr.same l1 l2 && Expr.same r1 r2
+      | _ => false
+    | .paren a, b => match b with | .paren b' => Expr.same a b' | _ => false
+    | .call n1 a1, b => match b with | .call n2 a2 => decide (n1 = n2) && sameArgs a1 a2 | _ => false
+    | .varRef v1 t1, b => match b with | .varRef v2 t2 => decide (v1 = v2) && decide (t1 = t2) | _ => false
+    | .distinct a, b => match b with | .distinct b' => decide (a = b') | _ => false
+    | .wildcard a, b => match b with | .wildcard b' => decide (a = b') | _ => false
+    | .regex a, b => match b with | .regex b' => decide (a = b') | _ => false
+    | .string a, b => match b with | .string b' => decide (a = b') | _ => false
+    | .number a, b => match b with | .number b' => decide (a = b') | _ => false
+    | .integer a, b => match b with | .integer b' => decide (a = b') | _ => false
+    | .unsigned a, b => match b with | .unsigned b' => decide (a = b') | _ => false
+    | .boolean a, b => match b with | .boolean b' => decide (a = b') | _ => false
+    | .duration a, b => match b with | .duration b' => decide (a = b') | _ => false
+    | .time a, b => match b with | .time b' => decide (a = b') | _ => false
+    | .nil, b => match b with | .nil => true | _ => false
+    | .list a, b => match b with | .list b' => decide (a = b') | _ => false
+    | .boundParam a, b => match b with | .boundParam b' => decide (a = b') | _ => false
+  def sameArgs : List Expr → List Expr → Bool
+    | [], bs => match bs with | [] => true | _ => false
+    | a :: as, bs => match bs with | b :: bs' => Expr.same a b && sameArgs as bs' | [] => false
+end
+
+mutual
+  theorem Expr.same_eq : ∀ (a b : Expr), Expr.same a b = true → a = b
+    | .binary o1 l1 r1, b, h => by
+      cases b <;> simp only [Expr.same, Bool.and_eq_true, decide_eq_true_eq, Bool.false_eq_true] at h
+      rw [h.1.1, Expr.same_eq l1 _ h.1.2, Expr.same_eq r1 _ h.2]
+    | .paren a, b, h => by
+      cases b <;> simp only [Expr.same, Bool.false_eq_true] at h
+      rw [Expr.same_eq a _ h]
+    | .call n1 a1, b, h => by
+      cases b <;> simp only [Expr.same, Bool.and_eq_true, decide_eq_true_eq, Bool.false_eq_true] at h
+      rw [h.1, sameArgs_eq a1 _ h.2]
+    | .varRef v1 t1, b, h => by
+      cases b <;> simp only [Expr.same, Bool.and_eq_true, decide_eq_true_eq, Bool.false_eq_true] at h
+      rw [h.1, h.2]
+    | .distinct a, b, h | .wildcard a, b, h | .regex a, b, h | .string a, b, h | .number a, b, h
+    | .integer a, b, h | .unsigned a, b, h | .boolean a, b, h | .duration a, b, h | .time a, b, h
+    | .list a, b, h | .boundParam a, b, h => by
+      cases b <;> simp only [Expr.same, decide_eq_true_eq, Bool.false_eq_true] at h
+      rw [h]
+    | .nil, b, h => by
+      cases b <;> simp only [Expr.same, Bool.false_eq_true] at h
+      rfl
+  theorem sameArgs_eq : ∀ (a b : List Expr), sameArgs a b = true → a = b
+    | [], bs, h => by
+      cases bs <;> simp only [sameArgs, Bool.false_eq_true] at h
+      rfl
+    | a :: as, bs, h => by
+      cases bs <;> simp only [sameArgs, Bool.and_eq_true, Bool.false_eq_true] at h
+      rw [Expr.same_eq a _ h.1, sameArgs_eq as _ h.2]
+end
+
+/-- `RT` as a computation: run the parser model on the text and compare the trees. -/
+def rtCheck (tbl : List (Char × Char)) (c : Expr) (w : Window) : Bool :=
+  match parseExprText (setTimeRangeText tbl (some c) w) [] tbl with
+  | .ok e => Expr.same e (expectedTree tbl c w)
+  | .error _ => false
+
+theorem RT_of_rtCheck (tbl : List (Char × Char)) (c : Expr) (w : Window) (h : rtCheck tbl c w = true) :
+    RT tbl c w := by
+  unfold rtCheck at h
+  unfold RT
+  split at h
+  · next e he => rw [he, Expr.same_eq e _ h]
+  · cases h
+
+/-- `RTSeq` as a computation. -/
+def rtSeqCheck (fa : FloatArith) (tbl : List (Char × Char)) : Expr → List Window → Bool
+  | _, [] => true
+  | c, w :: ws => rtCheck tbl c w && rtSeqCheck fa tbl (stepSpec fa tbl c w) ws
+
+theorem RTSeq_of_rtSeqCheck (fa : FloatArith) (tbl : List (Char × Char)) :
+    ∀ (ws : List Window) (c : Expr), rtSeqCheck fa tbl c ws = true → RTSeq fa tbl c ws
+  | [], _, _ => trivial
+  | w :: ws, c, h => by
+    simp only [rtSeqCheck, Bool.and_eq_true] at h
+    exact ⟨RT_of_rtCheck tbl c w h.1, RTSeq_of_rtSeqCheck fa tbl ws _ h.2⟩
 
 end InfluxQL
